@@ -876,12 +876,12 @@ func handleMessage(peer *Peer, m protocol.Message) error {
 			return reject(peer, m.Index, m.Begin, m.Length)
 		}
 		if len(peer.requested) >= reqQ {
-			// head drop
+			// head drop, whether or not we manage to tell
+			// the peer: the queue must not grow while we
+			// cannot write to it
 			r := peer.requested[0]
-			err := reject(peer, r.Index, r.Begin, r.Length)
-			if err == nil {
-				peer.requested = peer.requested[1:]
-			}
+			reject(peer, r.Index, r.Begin, r.Length)
+			peer.requested = peer.requested[1:]
 		}
 		peer.requested = append(peer.requested,
 			Requested{m.Index, m.Begin, m.Length})
